@@ -97,3 +97,47 @@ def run_graph(sc):
 
 def bus_pos_of(ss, idx):
     return int(ss.Bus.idx2uid(idx))
+
+
+def run_sequence(sc):
+    """
+    One System, several successive connection states (lines switched out and back in), connectivity check and power flow
+    after each; every state is compared with a *fresh* System put into the same state.  History matters: stale island
+    bookkeeping shows up only after a second, different state.
+    """
+    from .common import load_case
+    ss = load_case(sc["case"])
+    lines = list(ss.Line.idx.v)
+    ev = []
+    for step, off in enumerate(sc["steps"]):
+        for k, idx in enumerate(lines):
+            ss.Line.u.v[k] = 0 if k in off else 1
+        rec = dict(e="seqstep", step=step, off=list(off))
+        try:
+            conv = bool(ss.PFlow.run())
+        except Exception as ex:
+            conv = False
+            rec["raised_text"] = "%s: %s" % (type(ex).__name__, str(ex)[:100])
+        fresh = load_case(sc["case"])
+        for k in off:
+            fresh.Line.u.v[k] = 0
+        try:
+            conv2 = bool(fresh.PFlow.run())
+        except Exception:
+            conv2 = False
+        same_islands = ({frozenset(s) for s in ss.Bus.island_sets} == {frozenset(s) for s in fresh.Bus.island_sets} and
+                        set(ss.Bus.islanded_buses) == set(fresh.Bus.islanded_buses))
+        same_sol = True
+        if conv and conv2:
+            a = np.hstack([np.array(ss.Bus.a.v), np.array(ss.Bus.v.v)])
+            b = np.hstack([np.array(fresh.Bus.a.v), np.array(fresh.Bus.v.v)])
+            iso = [int(i) for i in fresh.Bus.islanded_buses]
+            mask = np.ones(len(a), dtype=bool)
+            for i in iso:
+                mask[i] = False
+                mask[fresh.Bus.n + i] = False
+            same_sol = bool(np.max(np.abs(a[mask] - b[mask])) <= 1e-6)
+        # assembled Jacobian against finite differences at the solution (power-flow models)
+        rec.update(same_success=bool(conv == conv2), same_islands=bool(same_islands), same_solution=bool(same_sol), converged=conv)
+        ev.append(rec)
+    return dict(meta=dict(tid=sc["tid"], sid=sc["sid"]), ev=ev)
